@@ -82,7 +82,7 @@ def makeSummation(minima: dict) -> dict[int, list]:
     return results
 
 
-def freshVars(i: int) -> tuple:
+def freshVars(i: int | str) -> tuple:
     """
     Generate fresh PySMT variables for minimal value encoding.
 
@@ -324,11 +324,11 @@ class CInference(Inference):
         minimal correction subsets, which determines entailment decisions.
         """
         logger.debug("translate called")
+        # one impact variable per conditional, named by the conditional's own key (the
+        # sums built by makeSummation refer to the conditionals by key as well)
         eta = {
             i: Symbol(f"eta_{i}", INT)
-            for i, _ in enumerate(
-                self.epistemic_state["belief_base"].conditionals, start=1
-            )
+            for i in self.epistemic_state["belief_base"].conditionals
         }
         # defeat= = checkTautologies(self.epistemic_state['belief_base'].conditionals)
         # if not defeat: return False
@@ -587,7 +587,8 @@ class CInference(Inference):
 
         vSum = makeSummation({0: vMin})
         fSum = makeSummation({0: fMin})
-        mv, mf = freshVars(0)
+        # the query's minimum variables must not collide with those of any conditional key
+        mv, mf = freshVars("q")
         vM = minima_encoding(mv, vSum[0])
         fM = minima_encoding(mf, fSum[0])
         # print(f"vM {vM}")
